@@ -15,11 +15,16 @@ vars == <<op, lft, rgt, out>>
 
 Init == op = "none" /\ lft = [c |-> "none", n |-> 0] /\ rgt = lft /\ out = [doc |-> Unspec, len |-> 0, picks |-> <<>>]
 
-Apply(o, L, m, R, n) ==
+\* The table is by CLASS, not by value: an object of a general class that happens to hold a value of its special
+\* subclass (a Quaternion of unit norm, a DualQuaternion of a rigid motion) is still an object of the general class.
+\* v: the value variant of an operand; the outcome does not depend on it.
+Variants(c) == IF c \in {"Quaternion", "DualQuaternion"} THEN {"generic", "subclass-valued"} ELSE {"generic"}
+Apply(o, L, m, R, n, vl, vr) ==
   /\ op = "none"                  \* one application per behaviour
   /\ (L \in Foreign => m = 1) /\ (R \in Foreign => n = 1)
   /\ (L \in Classes \/ R \in Classes)
-  /\ op' = o /\ lft' = [c |-> L, n |-> m] /\ rgt' = [c |-> R, n |-> n]
+  /\ vl \in Variants(L) /\ vr \in Variants(R)
+  /\ op' = o /\ lft' = [c |-> L, n |-> m, v |-> vl] /\ rgt' = [c |-> R, n |-> n, v |-> vr]
   /\ out' = Outcome(o, L, m, R, n)
 
 ApplyUnary(c, f, o, m) ==
@@ -42,13 +47,25 @@ ApplyInterp(c, k, o) ==
   /\ op' = "interp" /\ lft' = [c |-> c, n |-> 1] /\ rgt' = [c |-> "svec", n |-> k, opt |-> o]
   /\ out' = [doc |-> [k |-> "map"], len |-> k, picks |-> [i \in 1..k |-> <<1, i>>]]
 
+\* S.exp(theta) with S holding m twists and theta a vector of k angles: a vectorised method of TWO operands, the
+\* binary length rule applies (1 x k, m x 1, m x m element-wise; two different lengths above 1: ValueError)
+ApplyExp(c, m, k) ==
+  /\ op = "none"
+  /\ c \in Twists /\ m >= 1 /\ k >= 1
+  /\ op' = "exp-vector" /\ lft' = [c |-> c, n |-> m] /\ rgt' = [c |-> "thetavec", n |-> k, opt |-> ""]
+  /\ out' = LET r == BinLen(m, k) IN
+            \* a ONE-element vector of angles with several twists: neither the scalar form nor a pairing - not decided
+            IF m > 1 /\ k = 1 THEN [doc |-> Unspec, len |-> 0, picks |-> <<>>]
+            ELSE IF r = Err THEN [doc |-> [k |-> "raise", e |-> "ValueError"], len |-> 0, picks |-> <<>>]
+            ELSE [doc |-> [k |-> "map"], len |-> r, picks |-> [i \in 1..r |-> <<Pick(i, m), Pick(i, k)>>]]
 
 Next ==
   \/ \E o \in OpSet : \E L \in LeftKinds : \E R \in RightKinds : \E m \in Lens : \E n \in Lens :
-          Apply(o, L, m, R, n)
+          \E vl \in {"generic", "subclass-valued"} : \E vr \in {"generic", "subclass-valued"} : Apply(o, L, m, R, n, vl, vr)
   \/ \E c \in LeftKinds : \E f \in UnaryNames : \E o \in AllOpts : \E m \in Lens : Unary /\ ApplyUnary(c, f, o, m)
   \/ \E c \in LeftKinds : \E k \in Lens : \E o \in {"", "start", "dest", "shortest", "dest+shortest"} :
         Unary /\ ApplyInterp(c, k, o)
+  \/ \E c \in LeftKinds : \E m \in Lens : \E k \in Lens : Unary /\ ApplyExp(c, m, k)
 
 Spec == Init /\ [][Next]_vars
 
